@@ -541,7 +541,7 @@ pub fn child_reload(args: &[String]) -> i32 {
     let mut sleeps_seen = 0usize;
     let observe = |model: &RState, stepper: &Stepper, sleeps_seen: usize, what: &str| -> Result<(), (String, String)> {
         // the reloader is sleeping again (or has ended)
-        let sleeping = stepper.wait_sleeping(sleeps_seen, Duration::from_millis(if model.rate.is_some() { 5000 } else { 300 }));
+        let sleeping = stepper.wait_sleeping(sleeps_seen, Duration::from_millis(if model.rate.is_some() { 30000 } else { 300 }));
         match (model.rate, sleeping) {
             (Some(r), Some(d)) if d == Duration::from_secs(r) => {}
             (Some(r), Some(d)) => return Err(("reloader:refresh-rate-not-applied".into(), format!("{}: the reloader sleeps for {:?}, the file in force says {} s", what, d, r))),
